@@ -322,7 +322,7 @@ func (l *Lexer) readNumber(ch byte) (token.Type, string) {
 	if l.peekChar() == '.' {
 		if dotSeen {
 			// Stop if we see another dot
-			return t, string(l.input[pos : l.pos-1])
+			return t, string(l.input[pos:l.pos])
 		}
 		t = token.FLOAT
 		l.pos++
@@ -347,7 +347,8 @@ func (l *Lexer) readNumber(ch byte) (token.Type, string) {
 		l.pos++
 	}
 	if !isDigit(l.peekChar()) {
-		// Invalid exponent, stop here
+		// Invalid exponent, stop here (and give back the 'e' and sign: they are not part of the number)
+		l.pos = errPos
 		return t, string(l.input[pos:errPos])
 	}
 	t = token.FLOAT
